@@ -1292,7 +1292,7 @@ pub async fn run(ctx: &Ctx) {
         let bridge = plan.knob("bridge", 0) == 1;
         if bridge {
             let victim = (plan.knob("bridge_side", 1) & 1) as usize;
-            let kk = PcKnobs { mode: 2, mix: if media == 0 { 1 } else { 2 }, bundle: 0, mux: 0, lite: 0, udpmux: 0, latch: 0, compat: 0, offerer: 0 };
+            let kk = PcKnobs { mode: 2, mix: if media == 0 { 1 } else { 2 }, bundle: 0, mux: 0, lite: 0, udpmux: 0, latch: 0, compat: 0, offerer: 0, tcp: 0 };
             let mkx = |ip: &str, name: &'static str, ssrc: u32| {
                 let mut cfg = make_config(&kk, 0, plan);
                 cfg.bind_ip = Some(ip.into());
